@@ -1664,6 +1664,7 @@ class GroupBy:
         else:
             indexer = slice(None)
             result_index = common_index
+            self._unify_group_key_chunks()
             group_key = self.group_ikey
 
         arg_list = [
@@ -2332,6 +2333,7 @@ class GroupBy:
         max_diff: float | int
             The threshold distance for forming a new sub-group
         """
+        self._unify_group_key_chunks()
         return numba_funcs.group_nearby_members(
             group_key=self.group_ikey,
             values=values,
